@@ -4,6 +4,7 @@ package composite
 // and scripted hook transport, runs real syncs, records what happened.
 
 import (
+	"context"
 	"fmt"
 	"net/http"
 	"sort"
@@ -13,6 +14,7 @@ import (
 	"github.com/go-logr/logr"
 	metav1 "k8s.io/apimachinery/pkg/apis/meta/v1"
 	"k8s.io/apimachinery/pkg/runtime"
+	utilruntime "k8s.io/apimachinery/pkg/util/runtime"
 	"k8s.io/client-go/discovery"
 	"k8s.io/client-go/tools/cache"
 
@@ -60,10 +62,18 @@ func resByResource(apiVersion, resource string) *sim.Resource {
 var hookTransport = &vh.HookTransport{}
 var hookOnce sync.Once
 
+var lastSyncErrors []string
+var lastSyncErrorsMu sync.Mutex
+
 func installHookTransport() {
 	hookOnce.Do(func() {
 		http.DefaultTransport = hookTransport
 		logging.Logger = logr.Discard()
+		utilruntime.ErrorHandlers = []utilruntime.ErrorHandler{func(_ context.Context, err error, msg string, kv ...interface{}) {
+			lastSyncErrorsMu.Lock()
+			lastSyncErrors = append(lastSyncErrors, err.Error())
+			lastSyncErrorsMu.Unlock()
+		}}
 	})
 }
 
@@ -174,6 +184,23 @@ func (s *ctlSpec) compositeController() *v1alpha1.CompositeController {
 	return cc
 }
 
+// listRevisions returns the ControllerRevisions as the LIST view serves them (the informer's content).
+func (w *cworld) listRevisions() []map[string]interface{} {
+	rc, err := w.dynClient.Resource("metacontroller.k8s.io/v1alpha1", "controllerrevisions")
+	if err != nil {
+		return nil
+	}
+	l, err := rc.List(context.TODO(), metav1.ListOptions{})
+	if err != nil {
+		return nil
+	}
+	var out []map[string]interface{}
+	for i := range l.Items {
+		out = append(out, l.Items[i].Object)
+	}
+	return out
+}
+
 type builtPC struct {
 	pc    *parentController
 	queue *vh.RecQueue
@@ -186,12 +213,10 @@ var ctlCounter int
 func (w *cworld) buildPC(s *ctlSpec) (*builtPC, error) {
 	dynInformers := dynamicinformer.NewSharedInformerFactory(w.dynClient, time.Hour)
 	revIndexer := cache.NewIndexer(cache.MetaNamespaceKeyFunc, cache.Indexers{cache.NamespaceIndex: cache.MetaNamespaceIndexFunc})
-	for _, o := range w.srv.AllLive() {
-		if o["kind"] == "ControllerRevision" {
-			cr := &v1alpha1.ControllerRevision{}
-			if err := runtime.DefaultUnstructuredConverter.FromUnstructured(o, cr); err == nil {
-				revIndexer.Add(cr)
-			}
+	for _, o := range w.listRevisions() {
+		cr := &v1alpha1.ControllerRevision{}
+		if err := runtime.DefaultUnstructuredConverter.FromUnstructured(o, cr); err == nil {
+			revIndexer.Add(cr)
 		}
 	}
 	strategy := common.ApplyStrategyDynamicApply
@@ -272,6 +297,9 @@ func (w *cworld) runSync(s *ctlSpec, b *builtPC, key string) *roundRec {
 		sort.Slice(objs, func(i, j int) bool { return objKey(objs[i]) < objKey(objs[j]) })
 		rec.CacheChildren[resKey(k.Resource, k.APIVersion)] = objs
 	}
+	revs := w.listRevisions()
+	sort.Slice(revs, func(i, j int) bool { return objKey(revs[i]) < objKey(revs[j]) })
+	rec.CacheChildren["controllerrevisions.metacontroller.k8s.io/v1alpha1"] = revs
 	w.srv.ResetLog()
 	hookTransport.ResetCalls()
 	b.queue.Reset()
@@ -286,9 +314,17 @@ func (w *cworld) runSync(s *ctlSpec, b *builtPC, key string) *roundRec {
 			}
 		}()
 		// the real worker step: Get, sync, then AddRateLimited / Forget, Done
+		lastSyncErrorsMu.Lock()
+		lastSyncErrors = nil
+		lastSyncErrorsMu.Unlock()
 		b.queue.Push(key)
 		b.pc.processNextWorkItem()
 	}()
+	lastSyncErrorsMu.Lock()
+	if len(lastSyncErrors) > 0 && rec.PanicMsg == "" {
+		rec.PanicMsg = lastSyncErrors[0]
+	}
+	lastSyncErrorsMu.Unlock()
 	rec.Queue = b.queue.Snapshot()
 	if rec.Result != "panic" {
 		rec.Result = "done"
